@@ -5,15 +5,28 @@
 //! every name occurrence, every slash-free value site, every statement
 //! boundary and every top-level statement is known.  Every program of the
 //! grammar up to the bound x every single rewrite x every applicable position
-//! (pairs of rewrites in the thorough tier).
-//! Spec corpus: boundary-safe rewrites only (trailing newline / silent comment,
-//! @debug/@warn at top-level statement boundaries found by a brace-depth scan,
-//! the whole input moved into an @import-ed partial).
-//! Oracle (relational): output(rewritten) == output(original); both real
-//! executions; equal CSS, or both errors.
+//! (all compatible pairs, and triples on ten programs, in the thorough tier).
+//!
+//! Rewrites: whitespace / silent comment in a non-glued gap; rename of a
+//! variable, function or mixin (fresh name everywhere, `-`/`_` swapped
+//! everywhere, swapped in one occurrence only); a slash-free value site moved
+//! into a variable declared immediately before the enclosing statement;
+//! `@debug` / `@warn` at a statement boundary; a contiguous run of top-level
+//! statements moved into `_zpart.scss` and loaded with `@import` through the
+//! in-memory loader.
+//!
+//! Sections: single-rewrite, form-feed (U+000C as whitespace), rewrite-pairs,
+//! rewrite-triples, corpus (boundary-safe rewrites only: trailing newline /
+//! silent comment when the input ends at a statement boundary, @debug/@warn at
+//! top-level statement boundaries found by a brace-depth scan, the whole input
+//! moved into an @import-ed partial).
+//!
+//! Oracle (relational): output(rewritten) == output(original); both are real
+//! executions; equal CSS, or both errors.  Known-defect signatures predict the
+//! wrong output by a real execution of a variant program that spells the
+//! defect out (see `classify`).
 
 use serde::{Deserialize, Serialize};
-use std::cell::RefCell;
 use std::collections::{BTreeSet, HashMap};
 use vp::report::{Check, Verdict};
 use vp::rs::{self, Fmt, Out};
@@ -71,9 +84,9 @@ struct Doc {
     tops: Vec<usize>,
 }
 
-const VARS: &[&str] = &["a-b", "x-y", "p-q", "r_s", "k", "i", "l-v", "g-h", "v", "n_m"];
+const VARS: &[&str] = &["a-b", "x-y", "p-q", "r_s", "k", "i", "l-v", "g-h", "v", "n_m", "c-d"];
 const FUNS: &[&str] = &["fn-a", "fn_b"];
-const MIXS: &[&str] = &["mx-a", "mc_a", "ms-g"];
+const MIXS: &[&str] = &["mx-a", "mc_a", "ms-g", "mu-b"];
 
 fn base_name(nm: Nm) -> &'static str {
     match nm {
@@ -299,6 +312,9 @@ const ITEMS: &[ItemK] = &[
     ItemK { name: "extend", dsl: "¶@extend␣%ph-a°;␣¶q°:␣{V}°;␣", arg: false, dim: false },
     ItemK { name: "nsprop", dsl: "¶font§:␣⟦␣¶size°:␣{V}°;␣¶⟧␣", arg: false, dim: false },
     ItemK { name: "propinterp", dsl: "¶p-#{°{V}°}°:␣1°;␣", arg: true, dim: true },
+    ItemK { name: "include-using", dsl: "¶@include␣‹m3›␣using␣(°‹v10›°)␣⟦␣¶q°:␣‹v10›°;␣¶r°:␣{V}°;␣¶⟧␣", arg: false, dim: false },
+    // (no @while: a rewrite that goes wrong inside its condition or body could make the loop endless)
+    ItemK { name: "at-root", dsl: "¶@at-root␣.e␣⟦␣¶q°:␣{V}°;␣¶⟧␣", arg: false, dim: false },
 ];
 
 struct TopK {
@@ -325,9 +341,14 @@ const TOPS: &[TopK] = &[
     TopK { name: "set-default", dsl: "¤‹v7›°:␣{V}␣!default°;␣", items: false, value: true },
     TopK { name: "include-global", dsl: "¤@include␣‹m2›°;␣", items: false, value: false },
     TopK { name: "use-global", dsl: "¤.g␣⟦␣¶q°:␣‹v7›°;␣¶⟧␣", items: false, value: false },
+    // last declaration of a block without `;` (no statement boundary before `}`)
+    TopK { name: "rule-nosemi", dsl: "¤.r-a␣⟦␣¶p°:␣{V}␣⟧␣", items: false, value: true },
+    TopK { name: "loud-comment", dsl: "¤/* c */␣", items: false, value: false },
+    TopK { name: "supports", dsl: "¤@supports␣(°display°:␣grid°)␣⟦␣¶.r-a␣⟦␣{I}¶⟧␣¶⟧␣", items: true, value: false },
 ];
 
 const DEFS: &[(&str, &str)] = &[
+    ("‹m3›", "¤@mixin␣‹m3›␣⟦␣¶@content°(°«1px»°)°;␣¶⟧␣"),
     ("‹m2›", "¤@mixin␣‹m2›␣⟦␣¶‹v7›°:␣5px␣!global°;␣¶⟧␣"),
     ("‹m1›", "¤@mixin␣‹m1›␣⟦␣¶.in␣⟦␣¶@content°;␣¶⟧␣¶⟧␣"),
     ("‹m0›", "¤@mixin␣‹m0›°(°‹v2›°,␣‹v3›°:␣1°)␣⟦␣¶w°:␣‹v2›°;␣¶h°:␣‹v3›°;␣¶⟧␣"),
@@ -425,7 +446,7 @@ enum Edit {
     Import { from: usize, to: usize },
 }
 
-const WS: &[&str] = &[" ", "\n", " // c\n", "\t", "\r\n", " //\n", " // c\n  // d\n ", "\u{c}"];
+const WS: &[&str] = &[" ", "\n", " // c\n", "\t", "\r\n", " //\n", " // c\n  // d\n ", "\u{c}", "\u{b}"];
 /// is WS[v] plain whitespace (no comment)?
 fn ws_plain(v: u8) -> bool {
     !WS[v as usize].contains("//")
@@ -696,26 +717,40 @@ fn single_edits(doc: &Doc, ws_opt: &[u8], ws_sp: &[u8], stmts: &[u8]) -> Vec<Edi
 // running
 // ---------------------------------------------------------------------------
 
-thread_local! {
-    static MEMO: RefCell<HashMap<u64, Out>> = RefCell::new(HashMap::new());
-}
+static ORIGINALS: std::sync::RwLock<Option<HashMap<u64, Out>>> = std::sync::RwLock::new(None);
 
-/// Output of an original (unrewritten) source; memoised per thread because
-/// consecutive cases share their original.
+/// Output of an original (unrewritten) source: looked up in the table filled
+/// by `precompute` (all cases of one program share it), compiled here otherwise
+/// (replay mode).
 fn original(files: &[(&str, &str)], src: &str) -> Out {
     let key = vp::report::hash_of(&(files, src));
-    if let Some(o) = MEMO.with(|m| m.borrow().get(&key).cloned()) {
-        return o;
-    }
-    let o = rs::compile_files(files, "input.scss", src.as_bytes(), Fmt::EXPANDED);
-    MEMO.with(|m| {
-        let mut m = m.borrow_mut();
-        if m.len() > 256 {
-            m.clear();
+    if let Ok(g) = ORIGINALS.read() {
+        if let Some(o) = g.as_ref().and_then(|m| m.get(&key)) {
+            return o.clone();
         }
-        m.insert(key, o.clone());
+    }
+    rs::compile_files(files, "input.scss", src.as_bytes(), Fmt::EXPANDED)
+}
+
+/// Compile every original once (in parallel) and publish the table.
+fn precompute(ck: &Check, inputs: &[(Vec<(String, String)>, String)]) {
+    use rayon::prelude::*;
+    if ck.is_replay() {
+        return;
+    }
+    let table: Vec<(u64, Out)> = ck.install(|| {
+        inputs
+            .par_iter()
+            .map(|(files, src)| {
+                let f: Vec<(&str, &str)> = files.iter().map(|(a, b)| (a.as_str(), b.as_str())).collect();
+                let key = vp::report::hash_of(&(&f[..], src.as_str()));
+                (key, rs::compile_files(&f, "input.scss", src.as_bytes(), Fmt::EXPANDED))
+            })
+            .collect()
     });
-    o
+    if let Ok(mut g) = ORIGINALS.write() {
+        g.get_or_insert_with(HashMap::new).extend(table);
+    }
 }
 
 fn panic_site(p: &str) -> String {
@@ -780,17 +815,28 @@ impl Tok {
     }
 }
 
+/// Compile the program with `edits` applied: (root, partial, output, error kind).
+fn eval(doc: &Doc, edits: &[Edit]) -> (String, Option<String>, Out, Option<rs::ErrKind>) {
+    let plan = Plan::new(doc, edits);
+    let (root, part) = plan.sources();
+    let loader = match &part {
+        Some(p) => rs::MemLoader::new(&[("_zpart.scss", p.as_str())]),
+        None => rs::MemLoader::new(&[]),
+    };
+    let (new, kind) = rs::compile_with_loader_kind(loader, "input.scss", root.as_bytes(), Fmt::EXPANDED);
+    (root, part, new, kind)
+}
+
+fn plain_source(doc: &Doc) -> String {
+    let none: [Edit; 0] = [];
+    Plan::new(doc, &none).render(0, doc.toks.len())
+}
+
 fn run_case(c: &Case) -> Verdict {
     let doc = parse_dsl(&prog_dsl(&c.prog));
-    let none: [Edit; 0] = [];
-    let src0 = Plan::new(&doc, &none).render(0, doc.toks.len());
-    let plan = Plan::new(&doc, &c.edits);
-    let (root, part) = plan.sources();
+    let src0 = plain_source(&doc);
     let orig = original(&[], &src0);
-    let new = match &part {
-        Some(p) => rs::compile_files(&[("_zpart.scss", p.as_str())], "input.scss", root.as_bytes(), Fmt::EXPANDED),
-        None => rs::compile_files(&[], "input.scss", root.as_bytes(), Fmt::EXPANDED),
-    };
+    let (root, part, new, kind) = eval(&doc, &c.edits);
     match compare(&orig, &new) {
         Ok(v) => v,
         Err(d) => {
@@ -800,7 +846,12 @@ fn run_case(c: &Case) -> Verdict {
                 what.join(" + "),
                 part.map(|p| format!("\n  partial _zpart.scss: {p:?}")).unwrap_or_default()
             );
-            match classify(&doc, &c.edits, &orig, &new) {
+            let sig = if c.edits.len() == 1 {
+                classify(&doc, &c.edits[0], &orig, &new, &kind)
+            } else {
+                classify_multi(&doc, &c.edits, &orig, &new, &kind)
+            };
+            match sig {
                 Some(sig) => Verdict::fail_sig(sig, detail),
                 None => Verdict::fail(detail),
             }
@@ -808,11 +859,137 @@ fn run_case(c: &Case) -> Verdict {
     }
 }
 
-/// Known-defect signatures: the failing rewrite is of exactly the known kind at
+const LOGIC_OPS: &[&str] = &["<", ">", "<=", ">=", "==", "!=", "and", "or"];
+
+/// Known-defect signatures for one rewrite: it is of exactly the known kind at
 /// exactly the known kind of position *and* the wrong behaviour is exactly the
-/// known one.
-fn classify(_doc: &Doc, _edits: &[Edit], _orig: &Out, _new: &Out) -> Option<String> {
-    None
+/// known one (where the wrong output can be predicted, it is predicted by a
+/// real execution of a variant program that spells the defect out).
+fn classify(doc: &Doc, e: &Edit, orig: &Out, new: &Out, kind: &Option<rs::ErrKind>) -> Option<String> {
+    let parse_err = orig.css().is_some() && new.is_err() && *kind == Some(rs::ErrKind::Parse);
+    match e {
+        Edit::Ws { gap, v } => {
+            let t = &doc.toks[*gap];
+            if t.nm == Nm::No && t.text.ends_with("#{") && parse_err {
+                return Some("ws-after-interpolation-open".into());
+            }
+            if t.nm == Nm::No && t.text == "[" && parse_err {
+                return Some("ws-after-bracket-open".into());
+            }
+            if WS[*v as usize] == "\u{c}" {
+                // U+000C is an ordinary character for rsass' parser: the result is
+                // exactly what the non-whitespace control character U+000B in the
+                // same place gives (WS[8]; never used as a rewrite)
+                let (_, _, pred, pkind) = eval(doc, &[Edit::Ws { gap: *gap, v: 8 }]);
+                let same = match (&pred, new) {
+                    (Out::Css(a), Out::Css(b)) => &a.replace('\u{b}', "\u{c}") == b,
+                    (Out::Err(a), Out::Err(b)) => {
+                        pkind == *kind
+                            && a.lines().next().map(|l| l.replace('\u{b}', "\u{c}"))
+                                == b.lines().next().map(String::from)
+                    }
+                    _ => false,
+                };
+                return if same && orig.css().is_some() {
+                    Some("form-feed-not-whitespace".into())
+                } else {
+                    None
+                };
+            }
+            if !ws_plain(*v) && orig.css().is_some() && new.css().is_some() {
+                // a silent comment next to a relational / logic operator ends the
+                // expression: the operator and the rest become list elements,
+                // exactly as if the operator had been written `#{"op"}`
+                let is_op = |k: usize| {
+                    doc.toks
+                        .get(k)
+                        .is_some_and(|t| t.nm == Nm::No && LOGIC_OPS.contains(&t.text.as_str()))
+                };
+                let op = if is_op(*gap) {
+                    Some(*gap)
+                } else if is_op(gap + 1) {
+                    Some(gap + 1)
+                } else {
+                    None
+                };
+                if let Some(op) = op {
+                    let mut d2 = doc.clone();
+                    d2.toks[op].text = format!("#{{\"{}\"}}", doc.toks[op].text);
+                    let predicted = rs::compile_str(&plain_source(&d2), Fmt::EXPANDED);
+                    if &predicted == new {
+                        return Some("comment-next-to-logic-operator".into());
+                    }
+                }
+            }
+            None
+        }
+        Edit::Import { from, to } => {
+            // the partial's top level is evaluated in a child scope of the global
+            // scope whose variables are copied out afterwards: `!global`
+            // assignments made while the partial runs are overwritten by the
+            // partial's own earlier top-level declaration of the same variable
+            if !(orig.css().is_some() && new.css().is_some()) {
+                return None;
+            }
+            let n = doc.toks.len();
+            let span = |i: usize| {
+                let a = doc.tops[i];
+                let b = if i + 1 < doc.tops.len() { doc.tops[i + 1] } else { n };
+                (a, b)
+            };
+            let mut declared = false;
+            let mut removed = false;
+            let none: [Edit; 0] = [];
+            let plan = Plan::new(doc, &none);
+            let mut src = String::new();
+            for i in 0..doc.tops.len() {
+                let (a, b) = span(i);
+                let inside = i >= *from && i < *to;
+                let is_decl = doc.toks[a].nm == Nm::Var(7)
+                    && !doc.toks[a..b].iter().any(|t| t.text == "!default");
+                let is_incl = doc.toks[a].text == "@include" && doc.toks[a + 1].nm == Nm::Mix(2);
+                if inside && is_decl {
+                    declared = true;
+                }
+                if inside && is_incl && declared {
+                    removed = true;
+                    continue;
+                }
+                src.push_str(&plan.render_inner(a, b, false, false));
+            }
+            if removed && &rs::compile_str(&src, Fmt::EXPANDED) == new {
+                return Some("import-global-assignment-lost".into());
+            }
+            None
+        }
+        _ => None,
+    }
+}
+
+/// Several rewrites at once: the failure is known only if it is explained by
+/// the known failures of the single rewrites it consists of.
+fn classify_multi(doc: &Doc, edits: &[Edit], orig: &Out, new: &Out, kind: &Option<rs::ErrKind>) -> Option<String> {
+    let mut failing: Vec<(Option<String>, Out, Option<rs::ErrKind>)> = Vec::new();
+    for e in edits {
+        let one = [e.clone()];
+        let (_, _, n1, k1) = eval(doc, &one);
+        if compare(orig, &n1).is_err() {
+            failing.push((classify(doc, e, orig, &n1, &k1), n1, k1));
+        }
+    }
+    if failing.is_empty() || failing.iter().any(|f| f.0.is_none()) {
+        return None;
+    }
+    if failing.len() == 1 {
+        let (sig, n1, k1) = &failing[0];
+        let same = match (n1, new) {
+            (Out::Css(a), Out::Css(b)) => a == b,
+            (Out::Err(_), Out::Err(_)) => k1 == kind,
+            _ => false,
+        };
+        return if same { sig.clone() } else { None };
+    }
+    failing[0].0.clone()
 }
 
 // ---------------------------------------------------------------------------
@@ -976,9 +1153,18 @@ fn debug_positions(src: &str) -> Vec<usize> {
         }
         let rest = src[*p..].trim_start();
         // `} @else`, and a `;` directly after a block
-        !(rest.starts_with("@else") || rest.starts_with(';'))
+        // (`@\\65lse` is an escaped spelling of `@else`)
+        !(rest.starts_with("@else") || rest.starts_with("@\\") || rest.starts_with(';'))
     });
     bs
+}
+
+/// Does the input end exactly at a top-level statement boundary (so that
+/// appending text cannot continue an unterminated statement)?
+fn ends_at_boundary(src: &str) -> bool {
+    let t = src.trim_end();
+    t.is_empty()
+        || top_level_boundaries(src).is_some_and(|bs| bs.last() == Some(&t.len()))
 }
 
 const PART_NAME: &str = "zz-c35-part";
@@ -1009,24 +1195,31 @@ fn main() {
     // ---- programs
     let all_items: Vec<(u8, u8)> = (0..ITEMS.len())
         .flat_map(|k| {
-            let vs: Vec<usize> = if k == 0 { (0..VALS.len()).collect() } else { (0..VALS.len()).collect() };
-            vs.into_iter().filter(move |v| item_ok(k, *v)).map(move |v| (k as u8, v as u8))
+            (0..VALS.len()).filter(move |v| item_ok(k, *v)).map(move |v| (k as u8, v as u8))
         })
         .collect();
     let red_items: Vec<(u8, u8)> = (0..ITEMS.len())
         .flat_map(|k| VR.iter().filter(move |v| item_ok(k, **v)).map(move |v| (k as u8, *v as u8)))
         .collect();
     // a still smaller item set for pairs of items / tops
-    let small_items: Vec<(u8, u8)> = vec![(0, 1), (0, 2), (0, 3), (2, 0), (4, 1), (7, 2), (8, 2), (10, 5), (14, 1)];
+    // a still smaller item set for pairs of items / tops: one per statement form
+    let small_items: Vec<(u8, u8)> = vec![
+        (0, 1), (0, 2), (0, 3), (0, 4), (2, 0), (4, 1), (6, 2), (7, 2), (8, 2), (9, 1), (10, 5), (11, 0),
+        (12, 3), (13, 0), (14, 1), (15, 0), (17, 0), (19, 1), (20, 0),
+    ];
+    for it in &small_items {
+        assert!(item_ok(it.0 as usize, it.1 as usize), "small item {it:?}");
+    }
     let item_tops: Vec<u8> = (0..TOPS.len()).filter(|k| TOPS[*k].items).map(|k| k as u8).collect();
+    let top_named = |n: &str| TOPS.iter().position(|t| t.name == n).expect("top name") as u8;
 
     let mut progs: Vec<Prog> = Vec::new();
-    // layer A: one plain rule, one item, every item x value
+    // layer A: one plain rule, one item: every item kind x value
     for it in if quick { &red_items } else { &all_items } {
         progs.push(Prog { tops: vec![Top { k: 0, v: 0, items: vec![*it] }] });
     }
     if quick {
-        // every value in a declaration, and every item kind with the first value
+        // every value in a declaration
         for v in 0..VALS.len() {
             let it = (0u8, v as u8);
             if !red_items.contains(&it) {
@@ -1034,7 +1227,11 @@ fn main() {
             }
         }
     }
-    // layer B/C: every other top-level wrapper x one item
+    // layer A2: last declaration without `;`, every value
+    for v in 0..VALS.len() {
+        progs.push(Prog { tops: vec![Top { k: top_named("rule-nosemi"), v: v as u8, items: vec![] }] });
+    }
+    // layer B: every other top-level form that takes items x one item
     for k in &item_tops[1..] {
         let its: &[(u8, u8)] = if quick { &small_items } else { &red_items };
         for it in its {
@@ -1043,7 +1240,8 @@ fn main() {
     }
     // layer D: one rule, two items
     {
-        let its: &[(u8, u8)] = if quick { &small_items } else { &red_items };
+        let red3: Vec<(u8, u8)> = red_items.iter().filter(|it| it.1 >= 1 && it.1 <= 3).cloned().collect();
+        let its: &[(u8, u8)] = if quick { &small_items } else { &red3 };
         for a in its {
             for b in its {
                 progs.push(Prog { tops: vec![Top { k: 0, v: 0, items: vec![*a, *b] }] });
@@ -1054,14 +1252,15 @@ fn main() {
     {
         let mut tb: Vec<Top> = Vec::new();
         for v in if quick { vec![0u8, 2] } else { vec![0u8, 1, 2, 3, 5] } {
-            tb.push(Top { k: 11, v, items: vec![] });
-            tb.push(Top { k: 12, v, items: vec![] });
+            tb.push(Top { k: top_named("set-global"), v, items: vec![] });
+            tb.push(Top { k: top_named("set-default"), v, items: vec![] });
         }
-        tb.push(Top { k: 13, v: 0, items: vec![] });
-        tb.push(Top { k: 14, v: 0, items: vec![] });
+        tb.push(Top { k: top_named("include-global"), v: 0, items: vec![] });
+        tb.push(Top { k: top_named("use-global"), v: 0, items: vec![] });
+        tb.push(Top { k: top_named("loud-comment"), v: 0, items: vec![] });
         tb.push(Top { k: 0, v: 0, items: vec![(0, 32)] });
         tb.push(Top { k: 0, v: 0, items: vec![(4, 2)] });
-        tb.push(Top { k: 5, v: 0, items: vec![(0, 3)] });
+        tb.push(Top { k: top_named("media"), v: 0, items: vec![(0, 3)] });
         for a in &tb {
             for b in &tb {
                 progs.push(Prog { tops: vec![a.clone(), b.clone()] });
@@ -1077,7 +1276,26 @@ fn main() {
             }
         }
     }
+    for p in &progs {
+        for t in &p.tops {
+            let tk = &TOPS[t.k as usize];
+            assert!(tk.value || t.v == 0, "top {} takes no value", tk.name);
+            assert!(tk.items || t.items.is_empty(), "top {} takes no items", tk.name);
+        }
+    }
     ck.note("programs", serde_json::json!(progs.len()));
+    if let Ok(n) = std::env::var("C35_SHOW") {
+        // debugging aid: print every rewrite of program number n
+        let n: usize = n.parse().unwrap_or(0);
+        let p = &progs[n.min(progs.len() - 1)];
+        let doc = parse_dsl(&prog_dsl(p));
+        println!("PROGRAM {}", plain_source(&doc));
+        for e in single_edits(&doc, &[0, 2], &[1, 2], &[0, 1]) {
+            let (root, part, new, _) = eval(&doc, &[e.clone()]);
+            println!("{e:?}\n   {root:?} {part:?}\n   -> {}", new.short());
+        }
+        std::process::exit(0);
+    }
 
     let (ws_opt, ws_sp, stmts): (Vec<u8>, Vec<u8>, Vec<u8>) = if quick {
         (vec![0, 2], vec![1, 2], vec![0, 1])
@@ -1086,6 +1304,15 @@ fn main() {
     };
 
     let nprogs = progs.len();
+    let src_of = |p: &Prog| (Vec::new(), plain_source(&parse_dsl(&prog_dsl(p))));
+    precompute(&ck, &progs.iter().map(src_of).collect::<Vec<_>>());
+    if !ck.is_replay() {
+        let bad = progs
+            .iter()
+            .filter(|p| !matches!(original(&[], &plain_source(&parse_dsl(&prog_dsl(p)))), Out::Css(_)))
+            .count();
+        ck.note("programs_whose_original_is_an_error", serde_json::json!(bad));
+    }
     {
         let progs = progs.clone();
         let (wo, wsp, st) = (ws_opt.clone(), ws_sp.clone(), stmts.clone());
@@ -1105,6 +1332,31 @@ fn main() {
         );
     }
 
+    // ---- form feed (U+000C is whitespace in Sass) in every free gap of the
+    // one-rule-one-item programs over the reduced value set
+    {
+        let pp: Vec<Prog> = red_items
+            .iter()
+            .map(|it| Prog { tops: vec![Top { k: 0, v: 0, items: vec![*it] }] })
+            .collect();
+        let np = pp.len();
+        precompute(&ck, &pp.iter().map(src_of).collect::<Vec<_>>());
+        let it = pp.into_iter().flat_map(|p| {
+            let doc = parse_dsl(&prog_dsl(&p));
+            single_edits(&doc, &[7], &[7], &[])
+                .into_iter()
+                .filter(|e| matches!(e, Edit::Ws { .. }))
+                .map(move |e| Case { prog: p.clone(), edits: vec![e] })
+                .collect::<Vec<_>>()
+        });
+        ck.run(
+            "form-feed",
+            &format!("{np} programs x a form feed in every non-glued gap"),
+            it,
+            run_case,
+        );
+    }
+
     // ---- pairs of rewrites (thorough)
     if !quick || ck.is_replay() {
         // programs with one top-level statement and one item over the reduced sets
@@ -1117,7 +1369,14 @@ fn main() {
                 pp.push(Prog { tops: vec![Top { k: *k, v: 0, items: vec![*it] }] });
             }
         }
+        // and one rule with two items over the first eight small items
+        for a in &small_items[..8] {
+            for b in &small_items[..8] {
+                pp.push(Prog { tops: vec![Top { k: 0, v: 0, items: vec![*a, *b] }] });
+            }
+        }
         let np = pp.len();
+        precompute(&ck, &pp.iter().map(src_of).collect::<Vec<_>>());
         let it = pp.into_iter().flat_map(move |p| {
             let doc = parse_dsl(&prog_dsl(&p));
             let edits = single_edits(&doc, &[0, 2], &[1, 2], &[0]);
@@ -1142,6 +1401,47 @@ fn main() {
         );
     }
 
+    // ---- triples of rewrites (thorough): one program per construct family
+    if !quick || ck.is_replay() {
+        let pp: Vec<Prog> = [(0u8, 3u8), (0, 4), (6, 2), (7, 2), (9, 1), (10, 5), (12, 3), (14, 1)]
+            .iter()
+            .map(|it| Prog { tops: vec![Top { k: 0, v: 0, items: vec![*it] }] })
+            .chain([
+                Prog { tops: vec![Top { k: top_named("each"), v: 0, items: vec![(0, 2)] }] },
+                Prog { tops: vec![Top { k: top_named("include-global"), v: 0, items: vec![] }, Top { k: top_named("use-global"), v: 0, items: vec![] }] },
+            ])
+            .collect();
+        let np = pp.len();
+        precompute(&ck, &pp.iter().map(src_of).collect::<Vec<_>>());
+        let it = pp.into_iter().flat_map(move |p| {
+            let doc = parse_dsl(&prog_dsl(&p));
+            let edits = single_edits(&doc, &[2], &[2], &[0]);
+            let mut v = Vec::new();
+            for i in 0..edits.len() {
+                for j in i + 1..edits.len() {
+                    if !compatible(&doc, &edits[i], &edits[j]) {
+                        continue;
+                    }
+                    for k in j + 1..edits.len() {
+                        if compatible(&doc, &edits[i], &edits[k]) && compatible(&doc, &edits[j], &edits[k]) {
+                            v.push(Case {
+                                prog: p.clone(),
+                                edits: vec![edits[i].clone(), edits[j].clone(), edits[k].clone()],
+                            });
+                        }
+                    }
+                }
+            }
+            v
+        });
+        ck.run(
+            "rewrite-triples",
+            &format!("{np} programs x all compatible unordered triples of rewrites (silent comment as the only whitespace variant)"),
+            it,
+            run_case,
+        );
+    }
+
     // ---- spec corpus
     let corpus: Vec<vp::corpus::CorpusInput> = vp::corpus::load()
         .into_iter()
@@ -1161,9 +1461,11 @@ fn main() {
             rw: rw.to_string(),
             pos,
         };
-        ccases.push(mk("trail-comment", 0));
-        if !quick {
-            ccases.push(mk("trail-nl", 0));
+        if ends_at_boundary(&c.src) {
+            ccases.push(mk("trail-comment", 0));
+            if !quick {
+                ccases.push(mk("trail-nl", 0));
+            }
         }
         ccases.push(mk("import-whole", 0));
         let ps = debug_positions(&c.src);
@@ -1183,6 +1485,10 @@ fn main() {
         }
     }
     let ncorpus = corpus.len();
+    precompute(
+        &ck,
+        &corpus.iter().map(|c| (c.mocks.clone(), c.src.clone())).collect::<Vec<_>>(),
+    );
     ck.run(
         "corpus",
         &format!(
